@@ -661,3 +661,203 @@ Theorem C05_tdd_example :
    find_node ex_t3_collected 3 = None /\ s_handles ex_t3_collected = s_handles ex_t3).
 Proof. exact (conj ex_t3_audit (conj ex_t3_dead ex_t3_collected_ok)). Qed.
 Print Assumptions C05_tdd_example.
+
+(* ---------------------------------------------------------------------------------------------
+   Package ALLOC: the slot allocator of the index-based manager (free lists / allocated / chunks /
+   node count), interleaving model coq/Mgr/Alloc.v, for every schedule of any number of threads.
+   (Qualified names: the model's identifiers are not imported into this file.) *)
+From Coq Require Import ZArith Permutation.
+From OxiVerif Require Mgr.Alloc Mgr.AllocProofs Mgr.AllocThms Mgr.AllocExamples.
+Import ListNotations.
+
+(* "reachable": the state after ANY list of actions of any threads, from a new manager *)
+Theorem C05_alloc_reachable_def : forall c s,
+  AllocThms.reachable c s <->
+  exists n sched os, (1 <= Alloc.chunk c)%N /\ (1 <= Alloc.term c)%N /\
+    Alloc.run c Alloc.good (Alloc.init c n) sched = Some (s, os).
+Proof. intros. reflexivity. Qed.
+Print Assumptions C05_alloc_reachable_def.
+
+Theorem C05_alloc_reachable_closed : forall c sched s s' os,
+  AllocThms.reachable c s -> Alloc.run c Alloc.good s sched = Some (s', os) -> AllocThms.reachable c s'.
+Proof. exact AllocThms.reachable_run. Qed.
+Print Assumptions C05_alloc_reachable_closed.
+
+(* (a) SAFETY: live slots, slots of the shared lists, of the threads' local lists, of the threads'
+   pre-allocated ranges and the never-allocated rest are pairwise disjoint, duplicate-free and
+   together exactly the slot IDs TERMINALS .. TERMINALS + capacity *)
+Theorem C05_alloc_partition : forall c s, AllocThms.reachable c s ->
+  NoDup (Alloc.live_slots c s ++ Alloc.shared_slots c s ++ Alloc.local_slots c s ++
+         Alloc.range_slots c s ++ Alloc.unalloc_slots c s) /\
+  Permutation (Alloc.live_slots c s ++ Alloc.shared_slots c s ++ Alloc.local_slots c s ++
+               Alloc.range_slots c s ++ Alloc.unalloc_slots c s) (Alloc.ids c).
+Proof. exact AllocThms.r_partition. Qed.
+Print Assumptions C05_alloc_partition.
+
+(* a slot handed out by add_node lies inside the slot array, was in a free list / range and held no
+   node; afterwards it holds a node and is in no list or range *)
+Theorem C05_alloc_handout_safe : forall c s t s' id p, AllocThms.reachable c s ->
+  Alloc.step c Alloc.good s (Alloc.AAlloc t) = Some (s', Alloc.OAlloc (Some id) p) ->
+  (Alloc.term c <= id < Alloc.term c + Alloc.cap c)%N /\ In id (Alloc.free_slots c s) /\
+  ~ In id (Alloc.live_slots c s) /\ In id (Alloc.live_slots c s') /\ ~ In id (Alloc.free_slots c s').
+Proof. exact AllocThms.r_alloc_safe. Qed.
+Print Assumptions C05_alloc_handout_safe.
+
+(* ... and it is the head of the list / the first slot of the range that belongs to the path taken *)
+Theorem C05_alloc_handout_source : forall c s t l s' id p, AllocThms.reachable c s ->
+  nth_error (Alloc.th s) t = Some l ->
+  Alloc.step c Alloc.good s (Alloc.AAlloc t) = Some (s', Alloc.OAlloc (Some id) p) ->
+  match p with
+  | Alloc.PLocalList => exists r, Alloc.lchain c (Alloc.sl s) l = id :: r
+  | Alloc.PLocalRange => exists r, Alloc.lrange c l = id :: r
+  | Alloc.PSharedList | Alloc.PNonLocalList =>
+    exists h rest r, Alloc.s_free (Alloc.sh s) = h :: rest /\
+                     Alloc.chainl (Alloc.fuel c) (Alloc.sl s) h = id :: r
+  | Alloc.PSharedChunk | Alloc.PSharedBump | Alloc.PNonLocalBump => exists r, Alloc.unalloc_slots c s = id :: r
+  | Alloc.POom => False
+  end.
+Proof. exact AllocThms.r_alloc_source. Qed.
+Print Assumptions C05_alloc_handout_source.
+
+(* never handed out twice: while a slot holds a node and no thread frees it, no add_node of any
+   thread returns it, under every schedule *)
+Theorem C05_alloc_no_double_handout : forall c sched s s' os id, AllocThms.reachable c s ->
+  In id (Alloc.live_slots c s) -> Alloc.run c Alloc.good s sched = Some (s', os) ->
+  AllocProofs.frees_slot sched id = false ->
+  In id (Alloc.live_slots c s') /\ forall p, ~ In (Alloc.OAlloc (Some id) p) os.
+Proof. exact AllocThms.r_no_double_handout. Qed.
+Print Assumptions C05_alloc_no_double_handout.
+
+(* every list head stored in the state heads a well-formed list of free slots ending in 0 *)
+Theorem C05_alloc_chains_ok : forall c s, AllocThms.reachable c s ->
+  Forall (fun h => h <> 0%N /\ Alloc.chain_ok (Alloc.fuel c) (Alloc.sl s) h = true) (Alloc.s_free (Alloc.sh s)) /\
+  Forall (fun l => Alloc.is_this (Alloc.l_cur l) = true ->
+                   Alloc.chain_ok (Alloc.fuel c) (Alloc.sl s) (Alloc.l_next l) = true) (Alloc.th s).
+Proof. exact AllocThms.r_chains_ok. Qed.
+Print Assumptions C05_alloc_chains_ok.
+
+(* (d) node count bookkeeping: shared count + the threads' deltas = number of slots holding a node *)
+Theorem C05_alloc_count_exact : forall c s, AllocThms.reachable c s ->
+  (Alloc.s_count (Alloc.sh s) + Alloc.sum_delta s)%Z = Z.of_nat (Alloc.nlive c s).
+Proof. exact AllocThms.r_count_exact. Qed.
+Print Assumptions C05_alloc_count_exact.
+
+(* the number get_slot_from_shared compares with the high-water mark = #live (new node included)
+   minus the OTHER threads' pending deltas *)
+Theorem C05_alloc_trigger_count : forall c s t l s' id p, AllocThms.reachable c s ->
+  nth_error (Alloc.th s) t = Some l ->
+  Alloc.step c Alloc.good s (Alloc.AAlloc t) = Some (s', Alloc.OAlloc (Some id) p) ->
+  match p with Alloc.PLocalList | Alloc.PLocalRange => True | _ =>
+    (Alloc.s_count (Alloc.sh s') = Z.of_nat (Alloc.nlive c s') - (Alloc.sum_delta s - Alloc.l_delta l))%Z
+  end.
+Proof. exact AllocThms.r_trigger_count. Qed.
+Print Assumptions C05_alloc_trigger_count.
+
+(* (b) NO LEAK: #live + #free = capacity, always *)
+Theorem C05_alloc_free_count : forall c s, AllocThms.reachable c s ->
+  (Alloc.nlive c s + length (Alloc.free_slots c s))%nat = N.to_nat (Alloc.cap c).
+Proof. exact AllocThms.r_free_count. Qed.
+Print Assumptions C05_alloc_free_count.
+
+(* at quiescence (no thread holds a slot: guards dropped, collector epilogue done) every slot without
+   a node is reachable from the shared state *)
+Theorem C05_alloc_quiescent_no_leak : forall c s, AllocThms.reachable c s ->
+  (forall t l, nth_error (Alloc.th s) t = Some l -> AllocProofs.holds_nothing c l) ->
+  Alloc.free_slots c s = Alloc.shared_slots c s ++ Alloc.unalloc_slots c s /\
+  (Alloc.nlive c s + length (Alloc.shared_slots c s) + length (Alloc.unalloc_slots c s))%nat = N.to_nat (Alloc.cap c).
+Proof. exact AllocThms.r_quiescent_no_leak. Qed.
+Print Assumptions C05_alloc_quiescent_no_leak.
+
+Theorem C05_alloc_quiescent_count : forall c s, AllocThms.reachable c s ->
+  (forall t l, nth_error (Alloc.th s) t = Some l -> Alloc.is_this (Alloc.l_cur l) = false) ->
+  Alloc.s_count (Alloc.sh s) = Z.of_nat (Alloc.nlive c s).
+Proof. exact AllocThms.r_quiescent_count. Qed.
+Print Assumptions C05_alloc_quiescent_count.
+
+(* the capacity probe: when no other thread holds a slot, thread t creates exactly capacity - #live
+   nodes before OutOfMemory (after "drop all + gc", #live = 0: every slot can be allocated again) *)
+Theorem C05_alloc_capacity_probe : forall c k s t l, AllocThms.reachable c s ->
+  nth_error (Alloc.th s) t = Some l -> AllocProofs.others_idle_p c s t ->
+  (Alloc.nlive c s + k = N.to_nat (Alloc.cap c))%nat ->
+  exists s' ids, AllocProofs.allocs c s t k = Some (s', ids) /\ length ids = k /\ AllocThms.reachable c s' /\
+    Alloc.nlive c s' = N.to_nat (Alloc.cap c) /\
+    exists s'', Alloc.step c Alloc.good s' (Alloc.AAlloc t) = Some (s'', Alloc.OAlloc None Alloc.POom).
+Proof. exact AllocThms.r_capacity_probe. Qed.
+Print Assumptions C05_alloc_capacity_probe.
+
+(* non-vacuity: 2-3 threads, chunk size 2, capacity 6: two schedules through every action and every
+   path; the reached states satisfy the invariant (all 6 slots live) *)
+Theorem C05_alloc_example :
+  exists sa sb,
+    Alloc.run AllocExamples.ex_cfg Alloc.good (Alloc.init AllocExamples.ex_cfg 2) AllocExamples.ex_sched_a
+      = Some (sa, AllocExamples.ex_obs_a) /\
+    Alloc.run AllocExamples.ex_cfg Alloc.good (Alloc.init AllocExamples.ex_cfg 2) AllocExamples.ex_sched_b
+      = Some (sb, AllocExamples.ex_obs_b) /\
+    AllocInv.AInv AllocExamples.ex_cfg sa /\ AllocInv.AInv AllocExamples.ex_cfg sb /\
+    Alloc.ainv_b AllocExamples.ex_cfg sa = true /\ Alloc.ainv_b AllocExamples.ex_cfg sb = true /\
+    Alloc.live_slots AllocExamples.ex_cfg sa = [2; 3; 4; 5; 6; 7]%N /\
+    Alloc.live_slots AllocExamples.ex_cfg sb = [2; 3; 4; 5; 6; 7]%N /\
+    forallb (fun p => existsb (AllocExamples.path_eqb p)
+                        (AllocExamples.paths_of (AllocExamples.ex_obs_a ++ AllocExamples.ex_obs_b)))
+            AllocExamples.all_paths = true.
+Proof. exact AllocExamples.example_runs. Qed.
+Print Assumptions C05_alloc_example.
+
+(* seeded C01e (hand-over without resetting the local list head): slot 3 is handed out while it heads
+   a shared list; it holds a node AND is in a free list, the next request to the shared state is
+   stuck on it; the code as it is hands out slot 5 *)
+Theorem C05_alloc_no_reset_refuted :
+  AllocExamples.summary AllocExamples.ex_cfg
+    (Alloc.run AllocExamples.ex_cfg Alloc.var_no_reset (Alloc.init AllocExamples.ex_cfg 2) AllocExamples.sched_no_reset) =
+    Some (Alloc.OAlloc (Some 3%N) Alloc.PLocalList, [3%N], 1%Z, 1%Z, 2%nat, [2%N; 0%N], [3%N; 4%N],
+          ([], [2%N], [5%N], [6%N; 7%N]), false) /\
+  Alloc.run AllocExamples.ex_cfg Alloc.var_no_reset (Alloc.init AllocExamples.ex_cfg 2)
+    (AllocExamples.sched_no_reset ++ [Alloc.ABind 1; Alloc.AAlloc 1]) = None /\
+  AllocExamples.summary AllocExamples.ex_cfg
+    (Alloc.run AllocExamples.ex_cfg Alloc.good (Alloc.init AllocExamples.ex_cfg 2) AllocExamples.sched_no_reset) =
+    Some (Alloc.OAlloc (Some 5%N) Alloc.PLocalRange, [3%N], 1%Z, 1%Z, 2%nat, [0%N; 0%N], [4%N; 5%N],
+          ([3%N; 2%N], [], [], [6%N; 7%N]), true).
+Proof. exact AllocExamples.no_reset_refuted. Qed.
+Print Assumptions C05_alloc_no_reset_refuted.
+
+(* seeded C05c (guard drop terminates the chunk list with 0): slot 2 is lost: 9 free + 0 live <> 10 *)
+Theorem C05_alloc_tail_zero_refuted :
+  AllocExamples.summary AllocExamples.lk_cfg
+    (Alloc.run AllocExamples.lk_cfg Alloc.var_tail_zero (Alloc.init AllocExamples.lk_cfg 1) AllocExamples.sched_tail_zero) =
+    Some (Alloc.ODrop true 3%N, [3%N], 0%Z, 0%Z, 0%nat, [2%N], [],
+          ([3%N; 4%N; 5%N], [], [], [6%N; 7%N; 8%N; 9%N; 10%N; 11%N]), false) /\
+  AllocExamples.summary AllocExamples.lk_cfg
+    (Alloc.run AllocExamples.lk_cfg Alloc.good (Alloc.init AllocExamples.lk_cfg 1) AllocExamples.sched_tail_zero) =
+    Some (Alloc.ODrop true 3%N, [3%N], 0%Z, 0%Z, 0%nat, [2%N], [],
+          ([3%N; 4%N; 5%N; 2%N], [], [], [6%N; 7%N; 8%N; 9%N; 10%N; 11%N]), true).
+Proof. exact AllocExamples.tail_zero_refuted. Qed.
+Print Assumptions C05_alloc_tail_zero_refuted.
+
+(* seeded C07b (prepare_local_state does not reset next_free): a list returned at guard drop is used
+   again by its former owner: slot 3 handed out while it heads the shared list *)
+Theorem C05_alloc_no_prep_reset_refuted :
+  AllocExamples.summary AllocExamples.sm_cfg
+    (Alloc.run AllocExamples.sm_cfg Alloc.var_no_prep_reset (Alloc.init AllocExamples.sm_cfg 2) AllocExamples.sched_no_prep_reset) =
+    Some (Alloc.OAlloc (Some 3%N) Alloc.PLocalList, [3%N], 0%Z, 1%Z, 1%nat, [2%N; 0%N], [3%N],
+          ([], [2%N], [], [4%N]), false) /\
+  Alloc.run AllocExamples.sm_cfg Alloc.var_no_prep_reset (Alloc.init AllocExamples.sm_cfg 2)
+    (AllocExamples.sched_no_prep_reset ++ [Alloc.ABind 1; Alloc.AAlloc 1]) = None /\
+  AllocExamples.summary AllocExamples.sm_cfg
+    (Alloc.run AllocExamples.sm_cfg Alloc.good (Alloc.init AllocExamples.sm_cfg 2) AllocExamples.sched_no_prep_reset) =
+    Some (Alloc.OAlloc (Some 3%N) Alloc.PSharedList, [2%N], 1%Z, 0%Z, 1%nat, [0%N; 0%N], [3%N],
+          ([2%N], [], [], [4%N]), true).
+Proof. exact AllocExamples.no_prep_reset_refuted. Qed.
+Print Assumptions C05_alloc_no_prep_reset_refuted.
+
+(* the code before the fix "the freed node that triggers the hand-over is counted": count 2, 1 live slot *)
+Theorem C05_alloc_ho_drift_refuted :
+  AllocExamples.summary AllocExamples.ex_cfg
+    (Alloc.run AllocExamples.ex_cfg Alloc.var_ho_drift (Alloc.init AllocExamples.ex_cfg 1) AllocExamples.sched_ho_drift) =
+    Some (Alloc.ODrop true 5%N, [5%N; 3%N], 2%Z, 0%Z, 1%nat, [0%N], [4%N],
+          ([5%N; 3%N; 2%N], [], [], [6%N; 7%N]), false) /\
+  AllocExamples.summary AllocExamples.ex_cfg
+    (Alloc.run AllocExamples.ex_cfg Alloc.good (Alloc.init AllocExamples.ex_cfg 1) AllocExamples.sched_ho_drift) =
+    Some (Alloc.ODrop true 5%N, [5%N; 3%N], 1%Z, 0%Z, 1%nat, [0%N], [4%N],
+          ([5%N; 3%N; 2%N], [], [], [6%N; 7%N]), true).
+Proof. exact AllocExamples.ho_drift_refuted. Qed.
+Print Assumptions C05_alloc_ho_drift_refuted.
